@@ -84,8 +84,9 @@ impl BodyWriter {
                 let mut input_used = 0;
 
                 if input.is_empty() {
-                    // The body is ended only once the terminator is written.
-                    if self.finish(w) {
+                    // The body is ended only once the terminator is written,
+                    // and the terminator is written only once.
+                    if !self.ended && self.finish(w) {
                         self.ended = true;
                     }
                 } else {
